@@ -2,6 +2,7 @@
 from collections import defaultdict
 from ..core import show, apath, last_field, walk, AnalysisBroken, is_null
 from .. import msgown
+from .. import guards as G
 from ..aiolib import AIO_TYPES
 
 EXPLANATION = ("C03: ownership typestate for nni_msg* over every function that touches a message (no double release, "
@@ -408,9 +409,63 @@ def rule_o9(ctx):
                              "by nng_fini" % (f.name, l["b"]["n"], t.line, flag))
 
 
+def rule_o3(ctx):
+    """who frees a cell does not depend on an option that can change in between"""
+    r = ctx.rule("C03.O3", "T3", "ownership is decided once: a release (nni_msg_free) of a message held in a field of a protocol record "
+                 "is not made conditional on another field of that record that an option setter can change -- the value read "
+                 "when the reference was (or was not) taken and the value read at the release may differ, and the message is "
+                 "then freed twice or never", floor=3)
+    prog = ctx.prog
+    # fields written by functions stored in option tables
+    settable = set()
+    for slot in ("nni_option.o_set", "nni_option_s.o_set"):
+        for f in prog.slot_fns(slot):
+            if f.cfg_failed:
+                continue
+            for t in f.assigns():
+                if t.node["lhs"].get("k") == "mem":
+                    settable.add(last_field(t.node["lhs"]))
+            for c in f.calls():
+                # nni_copyin_ms(&ctx->retry, ...) style: the option value is stored through a pointer argument
+                if (c.node.get("fn") or "").startswith("nni_copyin_"):
+                    a = f.expand(c.node["args"][0]) if c.node["args"] else None
+                    if a is not None and a.get("k") == "un" and a.get("op") == "&" and a["e"].get("k") == "mem":
+                        settable.add(last_field(a["e"]))
+    if len(settable) < 10:
+        raise AnalysisBroken("only %d option-settable fields found" % len(settable))
+    n = 0
+    for f in prog.functions:
+        if f.cfg_failed or "/sp/protocol/" not in "/" + f.file:
+            continue
+        frees = [c for c in f.calls(("nni_msg_free",)) if c.node["args"] and (lambda a: a is not None and a.get("k") == "mem")(f.expand(c.node["args"][0]))]
+        if not frees:
+            continue
+        facts = G.edge_facts(f)
+        for c in frees:
+            cell = f.expand(c.node["args"][0])
+            rec = (last_field(cell) or ".").split(".")[0]
+            n += 1
+            bad = None
+            for bid, k, atom, val in facts:
+                for m in walk(atom):
+                    lf = last_field(m) if m.get("k") == "mem" else None
+                    if lf and lf != last_field(cell) and lf.split(".")[0] == rec and lf in settable and G.dominated(f, (c.b, c.i), {bid: k}):
+                        bad = (lf, atom)
+            if bad:
+                ctx.fail(r, f, "release of %s depends on option field %s" % (show(cell), bad[0].split(".")[1]), c.line,
+                         "nni_msg_free(%s) at line %s is made only when %s; %s is written by an option setter and can change "
+                         "between the moment the reference was taken (or not) and this release: the message is freed twice "
+                         "or leaked" % (show(cell), c.line, show(bad[1]), bad[0]))
+            else:
+                r.ob(f, "release of %s line %s does not depend on a settable option" % (show(cell), c.line))
+    if n < 3:
+        raise AnalysisBroken("only %d releases of message cells found in the protocols" % n)
+
+
 def run(ctx):
     ctx.guard(rule_o1)
     ctx.guard(rule_o4)
     ctx.guard(rule_o7)
     ctx.guard(rule_o8)
     ctx.guard(rule_o9)
+    ctx.guard(rule_o3)
